@@ -1,0 +1,14 @@
+//go:build verif
+
+package ipfslog
+
+// VerifYieldHook, when set by a harness, is called at the yield points of the
+// log: on entry of every public operation (before it takes the log's lock) and
+// between the two phases of Join. It may block. It is nil in normal test runs.
+var VerifYieldHook func(l *IPFSLog, point string)
+
+func verifYield(l *IPFSLog, point string) {
+	if hook := VerifYieldHook; hook != nil {
+		hook(l, point)
+	}
+}
